@@ -16,6 +16,7 @@ import (
 	"html"
 	"io"
 	"net/http"
+	"time"
 	"net/url"
 	"regexp"
 	"strings"
@@ -175,7 +176,7 @@ func init() {
 		for wi, wl := range rdWhitelists {
 			for _, rp := range []bool{false, true} {
 				envNo++
-				cfg := proxyCfg{Whitelist: wl, ReverseProxy: rp, Htpasswd: map[string]string{"bob": "pw"}, EncodeState: (wi+envNo)%2 == 0}
+				cfg := proxyCfg{Whitelist: wl, ReverseProxy: rp, Htpasswd: map[string]string{"bob": "pw"}, EncodeState: (wi+envNo)%2 == 0, EmailDomains: []string{"example.com"}}
 				e, err := newEnv(c, cfg)
 				if err != nil {
 					c.violation("HARNESS", "env: "+err.Error(), fmt.Sprintf("%+v", cfg))
@@ -197,7 +198,7 @@ func init() {
 			}
 		}
 		c.close([]string{"flow:start-callback", "flow:tamper", "flow:signin-post", "flow:signin-page", "flow:signout", "flow:error-page",
-			"flow:xauth", "flow:forwarded", "flow:app-path", "loginurl:ok", "mon:same", "mon:whitelisted", "landing:plain", "final:root", "final:absolute", "final:relative"})
+			"flow:xauth", "flow:forwarded", "flow:app-path", "flow:denied-error-page", "loginurl:ok", "mon:same", "mon:whitelisted", "landing:plain", "final:root", "final:absolute", "final:relative"})
 	})
 }
 
@@ -374,6 +375,28 @@ func e2eFlows(c *suiteCtx, e *testEnv, r *rng, s string) {
 	}
 	if r.intn(2) == 0 {
 		pageFlow("flow:signin-page", e2eReq{method: "GET", path: prefix + "/sign_in", fwd: fwd, xauth: r.pick([]string{"", s})}, 200, false)
+	}
+	// (h) the error page shown to a session that is no longer authorised, on a request whose query does not parse
+	// (the redirect strategies fail): whatever it offers as "return to" must stay on the site — also when the
+	// request carries forwarding headers naming another place
+	{
+		denied := e.sessionFor(idpUser{Sub: "mallory", Email: "mallory@not-allowed.org", EmailVerified: true}, 30*time.Second)
+		ck := e.issueSessionCookie(denied)
+		for _, badq := range []string{"x=%zz", "a=1;b=2"} {
+			hdr := http.Header{"X-Forwarded-Uri": {s}, "X-Forwarded-Host": {"evil.com"}, "X-Forwarded-Proto": {"https"}}
+			rv := e.do(reqSpec{Target: "/app/denied?" + badq, Cookie: ck, Header: hdr})
+			if rv.Status != 403 {
+				c.count(fmt.Sprintf("flow:denied-status-%d", rv.Status))
+				continue
+			}
+			c.count("flow:denied-error-page")
+			for _, m := range rdHiddenRe.FindAllStringSubmatch(rv.Body, -1) {
+				e2eMonitor(c, e, "error page of a refused session (unparsable query), hidden rd", html.UnescapeString(m[1]), ctx())
+			}
+			if m := rdActionRe.FindStringSubmatch(rv.Body); m != nil {
+				e2eMonitor(c, e, "error page of a refused session (unparsable query), form action", html.UnescapeString(m[1]), ctx())
+			}
+		}
 	}
 	// (g) unauthenticated request to an arbitrary application path: the sign-in page embeds
 	// the request URI as the redirect (last strategy of the director)
